@@ -63,6 +63,15 @@ func Verif_C03_ApkDigests() {
 // Verif_C04_ApkStructure: control segment first (.PKGINFO first, cut tar), then a complete data tar; safe names.
 func Verif_C04_ApkStructure() {
 	sc := scen.Payload(scen.Options{SymDst: true, Second: -1})
+	// the last member of the cut control segment ends on / off a block boundary
+	switch v.NondetChoice("control.last.member", 4) {
+	case 1:
+		sc.Info.Scripts.PostInstall = models.AddFile("/scripts/post", bytes.Repeat([]byte("x"), 3), 0o600, sc.MTime)
+	case 2:
+		sc.Info.Scripts.PostInstall = models.AddFile("/scripts/post", bytes.Repeat([]byte("x"), 512), 0o600, sc.MTime)
+	case 3:
+		sc.Info.Scripts.PostInstall = models.AddFile("/scripts/post", nil, 0o600, sc.MTime)
+	}
 	segs, ok := verifBuild(sc, 2)
 	v.Reach("C04.apk.ran")
 	if !ok {
